@@ -139,6 +139,38 @@ static int rg_pt_lift(rg_pt *r, const mpz_t x, int odd) {
     return sq;
 }
 
+
+/* square root modulo an odd prime m (Tonelli-Shanks, textbook); returns 0 if a is a non-residue */
+static int rg_sqrtm(mpz_t r, const mpz_t a, const mpz_t m) {
+    mpz_t q, z, c, t, b, x; unsigned long s = 0, i, k; int ok = 1;
+    if (mpz_sgn(a) == 0) { mpz_set_ui(r, 0); return 1; }
+    if (mpz_jacobi(a, m) != 1) return 0;
+    mpz_init(q); mpz_init(z); mpz_init(c); mpz_init(t); mpz_init(b); mpz_init(x);
+    mpz_sub_ui(q, m, 1);
+    while (mpz_even_p(q)) { mpz_fdiv_q_2exp(q, q, 1); s++; }
+    mpz_set_ui(z, 2);
+    while (mpz_jacobi(z, m) != -1) mpz_add_ui(z, z, 1);
+    mpz_powm(c, z, q, m);
+    mpz_add_ui(t, q, 1); mpz_fdiv_q_2exp(t, t, 1); mpz_powm(x, a, t, m);       /* x = a^((q+1)/2) */
+    mpz_powm(t, a, q, m);                                                       /* t = a^q */
+    k = s;
+    while (mpz_cmp_ui(t, 1) != 0) {
+        mpz_set(b, t);
+        for (i = 0; i < k && mpz_cmp_ui(b, 1) != 0; i++) { mpz_mul(b, b, b); mpz_mod(b, b, m); }
+        if (i >= k) { ok = 0; break; }
+        mpz_set(b, c);
+        { unsigned long j; for (j = 0; j + i + 1 < k; j++) { mpz_mul(b, b, b); mpz_mod(b, b, m); } }
+        mpz_mul(x, x, b); mpz_mod(x, x, m);
+        mpz_mul(c, b, b); mpz_mod(c, c, m);
+        mpz_mul(t, t, c); mpz_mod(t, t, m);
+        k = i;
+    }
+    if (ok) { mpz_mul(t, x, x); mpz_mod(t, t, m); mpz_mod(b, a, m); ok = mpz_cmp(t, b) == 0; }
+    if (ok) mpz_set(r, x);
+    mpz_clear(q); mpz_clear(z); mpz_clear(c); mpz_clear(t); mpz_clear(b); mpz_clear(x);
+    return ok;
+}
+
 /* Algebraic self test: returns 0 or the number of the failing identity */
 static int rg_selftest(void) {
     rg_pt a, b, c; mpz_t k; int bad = 0;
@@ -173,6 +205,13 @@ static int rg_selftest(void) {
         if (!bad && (ret != 1 || mpz_cmp_ui(k, 4) != 0 || !rg_fis_square(m))) bad = 13;
         mpz_sub_ui(k, RG_P, 4); ret = rg_fsqrt(m, k); rg_fmul(k, m, m);        /* -4 is a non-residue: root of +4 is returned, flag 0 */
         if (!bad && (ret != 0 || mpz_cmp_ui(k, 4) != 0 || !rg_fis_square(m))) bad = 14;
+        mpz_clear(m);
+    }
+    {   /* sqrt mod n of 9 and of (n-5)^2; a non-residue is refused */
+        mpz_t m; mpz_init(m);
+        mpz_set_ui(k, 9); if (!bad && (!rg_sqrtm(m, k, RG_N) || (mpz_cmp_ui(m, 3) != 0 && (mpz_add_ui(m, m, 3), mpz_cmp(m, RG_N) != 0)))) bad = 15;
+        mpz_set_ui(k, 2); while (mpz_jacobi(k, RG_N) != -1) mpz_add_ui(k, k, 1);
+        if (!bad && rg_sqrtm(m, k, RG_N)) bad = 16;
         mpz_clear(m);
     }
     rg_pt_clear(&a); rg_pt_clear(&b); rg_pt_clear(&c); mpz_clear(k);
